@@ -45,6 +45,13 @@ func (g *Gen) watchMod(k string, tk map[mType][]string, i int) [][]string {
 		{{"FLUSHDB"}},
 		{{"FLUSHALL"}},
 		{{"MSET", k, g.val(), other, g.val()}},
+		// a name that comes and goes again (the key looks the same afterwards)
+		{{"SET", k, g.val()}, {"FLUSHDB"}},
+		{{"RPUSH", k, g.val()}, {"FLUSHALL"}},
+		{{"FLUSHDB"}, {"SADD", k, "m9"}, {"DEL", k}},
+		{{"DEL", k}, {"SET", k, g.val()}, {"DEL", k}},
+		{{"DEL", k}, {"HSET", k, "f0", "1"}, {"RENAME", k, other}},
+		{{"FLUSHALL"}, {"SET", k, g.val()}, {"FLUSHALL"}},
 		{{"SETBITX"}}, // unknown command: not a modification
 		// reads and failing writes: must NOT count as modifications
 		{{"GET", k}},
